@@ -59,6 +59,8 @@ pub struct Ctx {
     events: Option<BufWriter<File>>,
     wal: Option<File>,
     pub max_samples: usize,
+    item_started: Option<std::time::Instant>,
+    slowest: Vec<(u64, u64, String)>,
 }
 
 impl Ctx {
@@ -95,6 +97,8 @@ impl Ctx {
             events: None,
             wal: None,
             max_samples: 3,
+            item_started: None,
+            slowest: vec![],
         }
     }
 
@@ -119,11 +123,20 @@ impl Ctx {
             None => (k as usize) % self.nshards == self.shard,
         };
         if mine {
+            self.close_item();
+            self.item_started = Some(std::time::Instant::now());
             self.cur_item = k;
             self.cur_desc = desc.to_string();
             self.items_run += 1;
         }
         mine
+    }
+    fn close_item(&mut self) {
+        if let Some(t0) = self.item_started.take() {
+            self.slowest.push((t0.elapsed().as_millis() as u64, self.cur_item, self.cur_desc.clone()));
+            self.slowest.sort_by(|a, b| b.0.cmp(&a.0));
+            self.slowest.truncate(5);
+        }
     }
     pub fn items_total(&self) -> u64 {
         self.item_counter
@@ -193,6 +206,7 @@ impl Ctx {
                 "tier": if self.quick() {"quick"} else {"thorough"},
                 "item": self.cur_item,
                 "desc": self.cur_desc,
+                "prelude": self.notes.get("prelude_suite"),
                 "detail": detail,
             }));
         }
@@ -236,6 +250,9 @@ impl Ctx {
     }
 
     pub fn finish(mut self) -> i32 {
+        self.close_item();
+        let slow: Vec<Value> = self.slowest.iter().map(|(ms, k, d)| json!({"ms": ms, "item": k, "desc": d})).collect();
+        self.notes.insert("slowest_items".into(), json!(slow));
         if let Some(mut w) = self.events.take() {
             w.flush().ok();
         }
